@@ -948,9 +948,15 @@ func (vfs *MemFS) Symlink(oldname, newname string) error {
 		return &os.LinkError{Op: op, Old: oldname, New: newname, Err: vfs.err.PermDenied}
 	}
 
+	part := pi.Part()
+	if parent.children[part] != nil {
+		// The name has been created since the path was walked.
+		return &os.LinkError{Op: op, Old: oldname, New: newname, Err: vfs.err.FileExists}
+	}
+
 	link := vfs.Clean(oldname)
 
-	vfs.createSymlink(parent, pi.Part(), link)
+	vfs.createSymlink(parent, part, link)
 
 	return nil
 }
